@@ -1334,10 +1334,11 @@ Theorem C02_loads_multi_mixed :
                             | None, None => True
                             | _, _ => False
                             end) /\
-                (* the trailer: the newest section's, without Prev; beside the bookkeeping keys and Size (the newest section's own
-                   count) it holds exactly the document's trailer entries, by value *)
-                (forall k, In k [bs "Type"; bs "W"; bs "Index"; bs "Length"; bs "Filter"; bs "DecodeParms"; bs "Size"] \/
-                           match dict_get (d_trailer d) k, dict_get (a_trailer a) k with
+                (* the trailer (the newest section's, without Prev): the document's entries and Size = 1 + the highest object number,
+                   plus cross-reference stream bookkeeping -- the clause of C02_full *)
+                (forall k, In k [bs "Type"; bs "W"; bs "Index"; bs "Length"; bs "Filter"; bs "DecodeParms"] \/
+                           match dict_get (d_trailer d) k, dict_get (a_trailer a ++ [(bs "Size", OInt (Z.of_N (1 + max_num
+                                   (map (fun io => fst (fst io)) (a_objs a) ++ part_xids parts))))]) k with
                            | Some o, Some o' => same_value o' o
                            | None, None => True
                            | _, _ => False
